@@ -490,7 +490,7 @@ private:
       Wt coeff(ntow::convert(p.first, overflow));
       variable_t y(p.second);
       if (overflow) {
-        continue;
+        return;
       }
 
       if (coeff < Wt(0)) {
@@ -505,7 +505,7 @@ private:
         } else {
           Wt ymax(ntow::convert(*(y_val.number()), overflow));
           if (overflow) {
-            continue;
+            return;
           }
           residual += ymax * coeff;
           oct_terms.push_back({y, ymax});
@@ -522,7 +522,7 @@ private:
         } else {
           Wt ymax(ntow::convert(*(y_val.number()), overflow));
           if (overflow) {
-            continue;
+            return;
           }
           residual += ymax * coeff;
           diff_terms.push_back({y, ymax});
@@ -642,7 +642,7 @@ private:
     for (auto p : exp) {
       Wt coeff(ntow::convert(p.first, overflow));
       if (overflow) {
-        continue;
+        return;
       }
       if (coeff > Wt(0)) {
         variable_t y(p.second);
@@ -660,7 +660,7 @@ private:
         } else {
           Wt ymin(ntow::convert(*(y_lb.number()), overflow));
           if (overflow) {
-            continue;
+            return;
           }
           // Coeff is negative, so it's still add
           exp_ub -= ymin * coeff;
@@ -684,7 +684,7 @@ private:
         } else {
           Wt ymax(ntow::convert(*(y_ub.number()), overflow));
           if (overflow) {
-            continue;
+            return;
           }
           exp_ub -= ymax * coeff;
           neg_terms.push_back({{-coeff, y}, ymax});
